@@ -1,4 +1,6 @@
 import NibabelModel.Lemmas.C19
+import NibabelModel.Lemmas.C19_Annot
+import NibabelModel.Lemmas.C19_Mgh
 /-! Props/C19 — the property theorems for C19 (statements + proofs; helper lemmas live in Lemmas/). -/
 namespace Nb.C19
 open Nb.Gen.C19
@@ -86,5 +88,229 @@ theorem morph_accepts_iff (shape : List Nat) :
     refine ⟨prod shape, ?_⟩
     simpa [morphAccepts, or_assoc] using h
   · rintro ⟨n, rfl | rfl | rfl | rfl⟩ <;> simp [morphAccepts, prod]
+
+/-! ## annotations -/
+
+/-- **Annotation round trip, exact characterisation.**  For every annotation `write_annot` accepts without
+    warning (`AnnotDom`: one name per row, byte-valued R,G,B, T in int32, pairwise distinct packed RGB values,
+    labels in {-1} ∪ [0, n), names without trailing NUL), `read_annot` returns the colour table (with the
+    packed values in column 5), the names, and every label — except that a label referring to a row whose
+    packed value is 0 comes back as -1 (`limitLabel`; the format uses 0 for "unlabeled"). -/
+theorem annot_roundtrip_general (labels : List Int) (ctab : List Row) (has5 : Bool) (names : List Bytes)
+    (fill : Bool) (ok : AnnotDom labels ctab has5 names fill) :
+    (writeAnnot labels ctab has5 names fill).bind (readAnnot false)
+      = .ok ⟨labels.map (limitLabel (packs ctab)), withPacked ctab, names⟩ := by
+  obtain ⟨file, h1, h2⟩ := annot_general_aux labels ctab has5 names fill ok
+  rw [h1]; exact h2
+
+/-- **Annotation round trip.**  When no vertex refers to a row packed to 0, labels, table and names read
+    back exactly. -/
+theorem annot_roundtrip (labels : List Int) (ctab : List Row) (has5 : Bool) (names : List Bytes)
+    (fill : Bool) (ok : AnnotDom labels ctab has5 names fill)
+    (hnz : ∀ l ∈ labels, 0 ≤ l → (packs ctab)[l.toNat]? ≠ some 0) :
+    (writeAnnot labels ctab has5 names fill).bind (readAnnot false)
+      = .ok ⟨labels, withPacked ctab, names⟩ := by
+  rw [annot_roundtrip_general labels ctab has5 names fill ok]
+  have : labels.map (limitLabel (packs ctab)) = labels := by
+    conv => rhs; rw [← List.map_id labels]
+    apply List.map_congr_left
+    intro l hl
+    have := hnz l hl
+    simp only [limitLabel, id]
+    split
+    · rename_i h; exact absurd h.2 (this h.1)
+    · rfl
+  rw [this]
+
+private def exCtab : List Row := [⟨10, 20, 30, 0, 7⟩, ⟨0, 0, 0, 255, 7⟩, ⟨255, 255, 255, 1, 7⟩]
+private def exNames : List Bytes := [[97], [], [98, 0, 99]]
+
+private theorem exAnnot_dom : AnnotDom [2, -1, 0, 0] exCtab false exNames true :=
+  ⟨by decide, by decide, by decide, by decide, by decide, by decide, by decide, by decide⟩
+
+/-- non-vacuity: three rows (one packed to 0 but not referenced), an unlabeled vertex, an empty name and a
+    name with an inner NUL -/
+example : (writeAnnot [2, -1, 0, 0] exCtab false exNames true).bind (readAnnot false)
+    = .ok ⟨[2, -1, 0, 0], withPacked exCtab, exNames⟩ :=
+  annot_roundtrip _ _ _ _ _ exAnnot_dom (by decide)
+
+/-- format limit, exactly characterised: whenever some vertex refers to a row packed to 0 the labels do
+    NOT read back (finding `annot:zero-packed-rgb-referenced`) -/
+theorem annot_zero_rgb_general (labels : List Int) (ctab : List Row) (has5 : Bool) (names : List Bytes)
+    (fill : Bool) (ok : AnnotDom labels ctab has5 names fill)
+    (l : Int) (hl : l ∈ labels) (h0 : 0 ≤ l) (hz : (packs ctab)[l.toNat]? = some 0) :
+    ∃ a, (writeAnnot labels ctab has5 names fill).bind (readAnnot false) = .ok a ∧ a.labels ≠ labels := by
+  refine ⟨_, annot_roundtrip_general labels ctab has5 names fill ok, ?_⟩
+  intro h
+  have key : ∀ (ls : List Int), ls.map (limitLabel (packs ctab)) = ls → ∀ x ∈ ls, limitLabel (packs ctab) x = x := by
+    intro ls
+    induction ls with
+    | nil => intro _ x hx; cases hx
+    | cons a t ih =>
+      intro e x hx
+      simp only [List.map_cons, List.cons.injEq] at e
+      rcases List.mem_cons.1 hx with rfl | hx
+      · exact e.1
+      · exact ih e.2 x hx
+  have := key labels h l hl
+  simp only [limitLabel, h0, hz, and_self, if_true] at this
+  omega
+
+/-- the minimal instance of the limit: one black entry, one vertex labelled with it, reads back -1 -/
+theorem annot_zero_rgb_witness :
+    (writeAnnot [0] [⟨0, 0, 0, 0, 0⟩] false [[97]] true).bind (readAnnot false)
+      = .ok ⟨[-1], [⟨0, 0, 0, 0, 0⟩], [[97]]⟩ := by decide
+
+/-- the ORIGINAL `write_annot` (`np.max(labels)` without `initial`) raised ValueError for an annotation
+    with zero vertices; the repaired one writes it and it reads back -/
+theorem annot_zero_vertices_orig_counterexample :
+    writeAnnotOrig [] [⟨10, 20, 30, 0, 0⟩] false [[97]] true = .error .value ∧
+    (writeAnnot [] [⟨10, 20, 30, 0, 0⟩] false [[97]] true).bind (readAnnot false)
+      = .ok ⟨[], [⟨10, 20, 30, 0, 1971210⟩], [[97]]⟩ := by decide
+
+/-- open finding `annot:empty-ctab-unlabeled-vertices`: with a zero-entry colour table every non-empty
+    label vector makes `write_annot` raise IndexError (`ctab[:, -1][labels]`) -/
+theorem annot_empty_ctab_unlabeled_witness (labels : List Int) (has5 : Bool) (names : List Bytes)
+    (h : labels ≠ []) : writeAnnot labels [] has5 names true = .error .index := by
+  cases labels with
+  | nil => exact absurd rfl h
+  | cons l ls =>
+    have : clutLabel [] l = .error .index := by
+      simp only [clutLabel, indexPy, List.length_nil]
+      split <;> simp_all
+    simp only [writeAnnot, writeAnnotWith, fillCtab, if_true, List.map_nil, clutLabels, this]
+
+example : writeAnnot [-1] [] false [] true = .error .index :=
+  annot_empty_ctab_unlabeled_witness [-1] false [] (by decide)
+
+/-! ## MGH: shape, zooms, footer offset, file round trip -/
+
+/-- **dims ↔ shape.**  For 1- to 4-D inputs (a 4th axis, when present, of length ≥ 2) the header's
+    `get_data_shape` returns the image shape (1-D/2-D inputs padded to 3-D by `MGHImage`) and `_ndims` is
+    its length: 3-D stays 3-D, 4-D with ≥ 2 frames stays 4-D. -/
+theorem mgh_shape_roundtrip (s : List Nat) (hl : 1 ≤ s.length ∧ s.length ≤ 4)
+    (h4 : ∀ a b c d, s = [a, b, c, d] → 2 ≤ d) :
+    ∃ d, setDataShape (imgShape s) = .ok d ∧ getDataShape d = imgShape s ∧ ndims d = (imgShape s).length := by
+  rcases s with _ | ⟨a, _ | ⟨b, _ | ⟨c, _ | ⟨d, _ | ⟨e, t⟩⟩⟩⟩⟩
+  · simp at hl
+  · exact ⟨⟨a, 1, 1, 1⟩, rfl, rfl, rfl⟩
+  · exact ⟨⟨a, b, 1, 1⟩, rfl, rfl, rfl⟩
+  · exact ⟨⟨a, b, c, 1⟩, rfl, rfl, rfl⟩
+  · have hd := h4 a b c d rfl
+    refine ⟨⟨a, b, c, d⟩, rfl, ?_, ?_⟩
+    · have : d ≠ 1 := by omega
+      simp [getDataShape, imgShape, this]
+    · have : d > 1 := by omega
+      simp [ndims, imgShape, this]
+  · simp at hl
+
+example : ∃ d, setDataShape (imgShape [3, 2]) = .ok d ∧ getDataShape d = [3, 2, 1] ∧ ndims d = 3 :=
+  mgh_shape_roundtrip [3, 2] (by decide) (by intro a b c d h; cases h)
+example : ∃ d, setDataShape (imgShape [3, 2, 4, 5]) = .ok d ∧ getDataShape d = [3, 2, 4, 5] ∧ ndims d = 4 :=
+  mgh_shape_roundtrip [3, 2, 4, 5] (by decide) (by intro a b c d h; cases h; decide)
+
+/-- **format limit (finding `mgh:single-frame-4d-shape`), for every such input.**  A 4-D shape whose last
+    axis is 1 is stored with dims (a, b, c, 1), which `get_data_shape` reports as 3-D; saving such an image
+    never succeeds, whatever the dtype, data, zooms or footer assignments. -/
+theorem mgh_single_frame_4d_limit (a b c : Nat) :
+    (setDataShape [a, b, c, 1]).map getDataShape = .ok [a, b, c] ∧
+    ∀ dt data aff ras setZ sets o, mghSaveLoad [a, b, c, 1] dt data aff ras setZ sets ≠ .ok o := by
+  refine ⟨rfl, ?_⟩
+  intro dt data aff ras setZ sets o
+  have hs : getDataShape ⟨a, b, c, 1⟩ ≠ [a, b, c, 1] := by simp [getDataShape]
+  unfold mghSaveLoad
+  simp only [List.length_cons, List.length_nil, show ¬ ((0 + 1 + 1 + 1 + 1 : Nat) < 3) from by decide, if_false]
+  cases codeOfDtype dt with
+  | none => simp
+  | some code =>
+    simp only [setDataShape]
+    cases setZ with
+    | none => simp [setFtr_dims, hs]
+    | some zs =>
+      simp only []
+      cases hz : setZooms ⟨⟨a, b, c, 1⟩, code, aff, [0, 0, 0, 0, 0]⟩ zs with
+      | error e => simp
+      | ok h1 =>
+        have := (setZooms_dims _ _ _ hz).1
+        simp [setFtr_dims, this, hs]
+
+/-- **zooms and TR.**  Setting as many zooms as the header has dimensions (positive spatial zooms, a
+    non-negative TR for 4-D) is accepted and `get_zooms` returns exactly them — three voxel sizes for a 3-D
+    header, voxel sizes + TR for a 4-D one; shape and dtype are untouched. -/
+theorem mgh_zooms_roundtrip (h : MghHdr) (zs : List Nat) (hn : zs.length = ndims h.dims)
+    (hpos : (zs.take 3).any f32LeZero = false) (htr : ∀ t, zs[3]? = some t → f32LtZero t = false) :
+    ∃ h', setZooms h zs = .ok h' ∧ getZooms h' = zs ∧ h'.dims = h.dims ∧ h'.code = h.code := by
+  have hnd : ndims h.dims = 3 ∨ ndims h.dims = 4 := by unfold ndims; split <;> simp
+  rcases hnd with h3 | h4'
+  · match zs, hn with
+    | [x, y, z], _ =>
+      refine ⟨{ h with delta := [x, y, z] }, ?_, ?_, rfl, rfl⟩
+      · simp only [setZooms, List.length_cons, List.length_nil, h3, hpos]; simp
+      · simp [getZooms, h3]
+    | [], hn => simp [h3] at hn
+    | [_], hn => simp [h3] at hn
+    | [_, _], hn => simp [h3] at hn
+    | _ :: _ :: _ :: _ :: _, hn => simp [h3] at hn
+  · match zs, hn with
+    | [x, y, z, t], _ =>
+      have ht := htr t rfl
+      refine ⟨{ h with delta := [x, y, z], ftr := t :: h.ftr.drop 1 }, ?_, ?_, rfl, rfl⟩
+      · simp only [setZooms, List.length_cons, List.length_nil, h4', hpos, ht]; simp
+      · simp [getZooms, h4', ftrTr]
+    | [], hn => simp [h4'] at hn
+    | [_], hn => simp [h4'] at hn
+    | [_, _], hn => simp [h4'] at hn
+    | [_, _, _], hn => simp [h4'] at hn
+    | _ :: _ :: _ :: _ :: _ :: _, hn => simp [h4'] at hn
+
+example : ∃ h', setZooms ⟨⟨3, 2, 4, 5⟩, 3, [1, 1, 1], [0, 0, 0, 0, 0]⟩ [1065353216, 1073741824, 1056964608, 1075838976]
+      = .ok h' ∧ getZooms h' = [1065353216, 1073741824, 1056964608, 1075838976] ∧ h'.dims = ⟨3, 2, 4, 5⟩ ∧ h'.code = 3 :=
+  mgh_zooms_roundtrip _ _ (by decide) (by decide) (by intro t h; cases h; decide)
+
+/-- **MGH file round trip.**  For every header with positive dims, a supported type code, three voxel
+    sizes and five footer values (any float32 patterns) and data of `prod dims` elements fitting the type,
+    the file `to_file_map` writes is read back to the same dims (hence shape and 3-D/4-D), type, voxel sizes,
+    footer (TR, flip angle, TE, TI, FoV) and data; the footer sits exactly at
+    `DATA_OFFSET + bytes-per-voxel * prod dims` and the file ends after it. -/
+theorem mgh_file_roundtrip (h : MghHdr) (ras : Bytes) (bpv : Nat) (data : List Nat)
+    (hb : bytesPerVox h.code = some bpv)
+    (hnz : ¬ (h.dims.x = 0 ∨ h.dims.y = 0 ∨ h.dims.z = 0 ∨ h.dims.f = 0))
+    (hdims : ∀ n ∈ h.dims.toList, n < 4294967296) (hcode : h.code < 4294967296)
+    (hdl : h.delta.length = 3) (hdv : ∀ v ∈ h.delta, v < 4294967296)
+    (hfl : h.ftr.length = 5) (hfv : ∀ v ∈ h.ftr, v < 4294967296)
+    (hras : ras.length = 48)
+    (hdata : data.length = h.dims.prod) (hdat : ∀ v ∈ data, v < 256 ^ bpv) :
+    readMgh (writeMgh h ras bpv data) = .ok (h, data)
+    ∧ (writeMgh h ras bpv data).length = footerOffset bpv h.dims + ftrItemsize := by
+  obtain ⟨⟨x, y, z, f⟩, code, delta, ftr⟩ := h
+  simp only [Dims.toList, List.mem_cons, List.not_mem_nil, or_false, forall_eq_or_imp, forall_eq] at hdims
+  exact mgh_file_roundtrip_aux x y z f code delta ftr ras bpv data hb hnz hdims.1 hdims.2.1 hdims.2.2.1
+    hdims.2.2.2 hcode hdl hdv hfl hfv hras hdata hdat
+
+example : readMgh (writeMgh ⟨⟨2, 1, 1, 2⟩, 4, [1065353216, 1073741824, 1056964608], [1075838976, 0, 1, 2, 3]⟩
+      (zeros 48) 2 [1, 65535, 32768, 7]) = .ok (⟨⟨2, 1, 1, 2⟩, 4, [1065353216, 1073741824, 1056964608], [1075838976, 0, 1, 2, 3]⟩, [1, 65535, 32768, 7])
+    ∧ (writeMgh ⟨⟨2, 1, 1, 2⟩, 4, [1065353216, 1073741824, 1056964608], [1075838976, 0, 1, 2, 3]⟩
+      (zeros 48) 2 [1, 65535, 32768, 7]).length = footerOffset 2 ⟨2, 1, 1, 2⟩ + ftrItemsize :=
+  mgh_file_roundtrip _ _ _ _ (by decide) (by decide) (by decide) (by decide) (by decide) (by decide) (by decide)
+    (by decide) (by decide) (by decide) (by decide)
+
+/-! ## generated constants (re-checked against the source on every run) -/
+
+/-- the constants the model relies on, as extracted from the working tree: header/footer layouts tile
+    their blocks with the offsets the model hard-codes, the data offset lies behind the header, the type
+    table has widths 1/2/4 and distinct codes, the magic bytes the writers emit decode to the magic numbers
+    the readers test, the reader's volume-info keys are the writer's keys after `head`, in order. -/
+theorem gen_constants_consistent :
+    tiles 0 hdrLayout hdrItemsize = true ∧ tiles 0 ftrLayout ftrItemsize = true ∧ hdrItemsize ≤ dataOffset ∧
+    hdrLayout.map (fun e => (e.1, e.2.1)) =
+      [("version", 0), ("dims", 4), ("type", 20), ("dof", 24), ("goodRASFlag", 28), ("delta", 30), ("Mdc", 42),
+       ("Pxyz_c", 78)] ∧
+    ftrLayout.map (·.1) = ["tr", "flip_angle", "te", "ti", "fov"] ∧ ftrItemsize = 20 ∧
+    (∀ e ∈ typeCodes, e.2.2 = 1 ∨ e.2.2 = 2 ∨ e.2.2 = 4) ∧ (typeCodes.map (·.2.1)).Nodup ∧
+    (typeCodes.map (·.1)).Nodup ∧ defVersion = 1 ∧ defGoodRAS ≠ 0 ∧ defGoodRAS < 256 ∧
+    rdMagic3 geomMagicBytes = .ok (triangleMagic, []) ∧ rdMagic3 morphMagicBytes = .ok (morphMagic, []) ∧
+    triangleMagic ≠ quadMagic ∧ triangleMagic ≠ newQuadMagic ∧
+    volKeysW = [kHead, kValid, kFilename, kVolume, kVoxelsize, kXras, kYras, kZras, kCras] ∧
+    volKeysR = volKeysW.tail ∧ noFile.length + 1 < 2147483648 := by decide
 
 end Nb.C19
